@@ -65,6 +65,9 @@ Definition PQ (n : rnode) (a : st) : Prop :=
   pos a < tlen e /\ rtest n (char_at e (pos a)) = true /\
   (0 < n_m n -> 0 < pos a /\ rtest n (char_at e (pos a - 1)) = true).
 
+(* the next character passes the loop's test: any state at all *)
+Definition NQ (n : rnode) (a : st) : Prop := pos a < tlen e /\ rtest n (char_at e (pos a)) = true.
+
 Lemma PQ_pos n a b : pos a = pos b -> PQ n a -> PQ n b.
 Proof. unfold PQ. intros ->. tauto. Qed.
 
@@ -203,20 +206,20 @@ Proof. intros H. rewrite tr_unfold. cbv zeta. rewrite H. destruct a; reflexivity
 Lemma stay_anchor a s : den (NAnchor a) s = [s] \/ den (NAnchor a) s = [].
 Proof. rewrite fd_den_anchor. destruct (anchor_ok e a (pos s)); auto. Qed.
 
-Lemma dead_end n a : PQ n a -> den (NAnchor AEnd) a = [].
+Lemma dead_end n a : NQ n a -> den (NAnchor AEnd) a = [].
 Proof. intros (Hp & _). rewrite fd_den_anchor. cbn [anchor_ok]. replace (tlen e <=? pos a) with false by lia. reflexivity. Qed.
 
-Lemma dead_eol n a : rtest n 10 = false -> PQ n a -> den (NAnchor AEol) a = [].
+Lemma dead_eol n a : rtest n 10 = false -> NQ n a -> den (NAnchor AEol) a = [].
 Proof.
-  intros H10 (Hp & Ht & _). rewrite fd_den_anchor. cbn [anchor_ok].
+  intros H10 (Hp & Ht). rewrite fd_den_anchor. cbn [anchor_ok].
   replace (tlen e <=? pos a) with false by lia.
   destruct (char_at e (pos a) =? 10) eqn:E; [|reflexivity].
   assert (char_at e (pos a) = 10) as E' by lia. rewrite E' in Ht. congruence.
 Qed.
 
-Lemma dead_endz n a : rtest n 10 = false -> PQ n a -> den (NAnchor AEndZ) a = [].
+Lemma dead_endz n a : rtest n 10 = false -> NQ n a -> den (NAnchor AEndZ) a = [].
 Proof.
-  intros H10 (Hp & Ht & _). rewrite fd_den_anchor. cbn [anchor_ok].
+  intros H10 (Hp & Ht). rewrite fd_den_anchor. cbn [anchor_ok].
   destruct (1 <? tlen e - pos a) eqn:E1; [reflexivity|].
   destruct (endz_strict e); [replace (tlen e - pos a <=? 0) with false by lia; reflexivity|].
   replace (tlen e - pos a =? 1) with true by lia.
@@ -304,14 +307,17 @@ Qed.
 
 (* ---- what the successor does at the states where the loop may have stopped early *)
 Definition dead_at (n : rnode) (x : node) : Prop := forall a, sok a -> PQ n a -> den x a = [].
+Definition dead_nq (n : rnode) (x : node) : Prop := forall a, NQ n a -> den x a = [].
+Lemma dead_nq_at n x : dead_nq n x -> dead_at n x.
+Proof. intros H a _ (Hp & Ht & _). apply H. split; assumption. Qed.
 Definition stay_at (n : rnode) (x : node) : Prop := forall a, sok a -> PQ n a -> den x a = [a] \/ den x a = [].
 Definition total_at (n : rnode) (x : node) : Prop :=
   (forall a, sok a -> PQ n a -> den x a = [a]) /\ (forall a, den x a <> []).
 
 Lemma dead_excl n s : fam (n_t s) = true -> fo_wf s = true -> sets_in s -> ltr (n_o s) ->
   ((n_t s = 9 \/ n_t s = 10 \/ n_t s = 11) \/ 0 < n_m s) ->
-  (forall x, rtest n x = true -> rtest s x = false) -> dead_at n (tr s).
-Proof. intros Hf Hwf Hs Hl Hm Hex a _ (Hp & Ht & _). apply dead_fam; auto. Qed.
+  (forall x, rtest n x = true -> rtest s x = false) -> dead_nq n (tr s).
+Proof. intros Hf Hwf Hs Hl Hm Hex a (Hp & Ht). apply dead_fam; auto. Qed.
 
 Lemma total_excl n s : fam (n_t s) = true -> fo_wf s = true -> sets_in s -> ltr (n_o s) ->
   (n_t s <> 9 /\ n_t s <> 10 /\ n_t s <> 11) -> n_m s = 0 ->
@@ -328,7 +334,7 @@ Qed.
 Definition nb_t (t : Z) : bool := (t =? T_Nonboundary) || (t =? T_NonECMABoundary).
 
 Definition verdict_spec (n s : rnode) (v : Z) : Prop :=
-  (v = 1 -> dead_at n (tr s)) /\
+  (v = 1 -> dead_nq n (tr s)) /\
   (v = 2 -> if nb_t (n_t s) then stay_at n (tr s) else (dead_at n (tr s) \/ total_at n (tr s))).
 
 Lemma stay_at_anchor n s an : n_t s = anchor_code an -> stay_at n (tr s).
@@ -353,12 +359,12 @@ Ltac s_set := rewrite (rtest_set s) by (fam_unfold; lia).
 Ltac dexcl := apply dead_excl; [fam_unfold; lia | exact Hwfs | exact Hss | exact Hltrs | fam_unfold; lia | ].
 Ltac texcl := right; apply total_excl; [fam_unfold; lia | exact Hwfs | exact Hss | exact Hltrs | fam_unfold; lia | lia | ].
 
-Lemma dead_anchor_end : n_t s = T_End -> dead_at n (tr s).
-Proof. intros H a _ Hq. rewrite (tr_anchor s AEnd H). exact (dead_end n a Hq). Qed.
-Lemma dead_anchor_eol : n_t s = T_Eol -> rtest n 10 = false -> dead_at n (tr s).
-Proof. intros H H10 a _ Hq. rewrite (tr_anchor s AEol H). exact (dead_eol n a H10 Hq). Qed.
-Lemma dead_anchor_endz : n_t s = T_EndZ -> rtest n 10 = false -> dead_at n (tr s).
-Proof. intros H H10 a _ Hq. rewrite (tr_anchor s AEndZ H). exact (dead_endz n a H10 Hq). Qed.
+Lemma dead_anchor_end : n_t s = T_End -> dead_nq n (tr s).
+Proof. intros H a Hq. rewrite (tr_anchor s AEnd H). exact (dead_end n a Hq). Qed.
+Lemma dead_anchor_eol : n_t s = T_Eol -> rtest n 10 = false -> dead_nq n (tr s).
+Proof. intros H H10 a Hq. rewrite (tr_anchor s AEol H). exact (dead_eol n a H10 Hq). Qed.
+Lemma dead_anchor_endz : n_t s = T_EndZ -> rtest n 10 = false -> dead_nq n (tr s).
+Proof. intros H H10 a Hq. rewrite (tr_anchor s AEndZ H). exact (dead_endz n a H10 Hq). Qed.
 Lemma dead_anchor_b : n_t s = T_Boundary -> 0 < n_m n -> (forall x, rtest n x = true -> isw x = true) -> dead_at n (tr s).
 Proof.
   intros H Hm Hw a _ Hq. rewrite (tr_anchor s ABoundary H).
@@ -372,8 +378,8 @@ Proof.
   intros x Hx. rewrite (eo_eword Henv). apply Hw. exact Hx.
 Qed.
 
-Lemma dead_multi_excl c0 r : n_t s = T_Multi -> n_str s = c0 :: r -> (forall x, rtest n x = true -> (x =? c0) = false) -> dead_at n (tr s).
-Proof. intros Ht Hstr Hex a _ (Hp & Hq & _). apply (dead_multi s c0 r); auto. Qed.
+Lemma dead_multi_excl c0 r : n_t s = T_Multi -> n_str s = c0 :: r -> (forall x, rtest n x = true -> (x =? c0) = false) -> dead_nq n (tr s).
+Proof. intros Ht Hstr Hex a (Hp & Hq). apply (dead_multi s c0 r); auto. Qed.
 
 Lemma verdict_one al v :
   (n_t n =? T_Oneloop) || ((n_t n =? T_Onelazy) && al) = true ->
